@@ -1,6 +1,10 @@
 //! Scenario registry: one PropDef per property, each a list of strata.
 use crate::fw::PropDef;
 
+pub mod c01;
+pub mod c02;
+pub mod c03;
+pub mod c04;
 pub mod c05;
 pub mod c06;
 pub mod c07;
@@ -15,5 +19,5 @@ pub mod c15;
 pub mod recv;
 
 pub fn all() -> Vec<PropDef> {
-    vec![c05::def(), c06::def(), c07::def(), c08::def(), c09::def(), c10::def(), c11::def(), c12::def(), c13::def(), c14::def(), c15::def()]
+    vec![c01::def(), c02::def(), c03::def(), c04::def(), c05::def(), c06::def(), c07::def(), c08::def(), c09::def(), c10::def(), c11::def(), c12::def(), c13::def(), c14::def(), c15::def()]
 }
